@@ -281,6 +281,12 @@ def handleLayout : List String → Option String
   | "vidx" :: v :: r => do
       let ds ← parseDecls r
       pure (optNat (Layout.varIdx ds v) ++ " " ++ toString (Layout.frameSize ds))
+  | "ridx" :: v :: n :: r => do
+      -- a routine's frame: the first n declarations are parameters
+      let n ← n.toNat?
+      let ds ← parseDecls r
+      let fr := Layout.routineFrame (ds.take n) (ds.drop n)
+      pure (optNat (Layout.varIdx fr v) ++ " " ++ toString (Layout.frameSize fr))
   | "foff" :: r => do
       let (t, r') ← parseFType r
       let path ← r'.mapM String.toNat?
@@ -654,7 +660,8 @@ def handleBlocks (r : List String) : Option String := do
     | .error (.notClosed k l) => s!"err notclosed {k} {l}"
     | .error (.elseAfterElse l) => s!"err elseafter 0 {l}"
     | .error (.beforeCase l) => s!"err beforecase 0 {l}"
-    | .error (.illegalInType l) => s!"err intype 0 {l}")
+    | .error (.illegalInType l) => s!"err intype 0 {l}"
+    | .error (.fieldOutside l) => s!"err fieldoutside 0 {l}")
 
 
 /-! ### the lexical layer (C14): `lex <text>` -> the token stream, one item per token -/
@@ -846,6 +853,10 @@ def handle (toks : List String) : String :=
       match Data.labelIndex (Data.groupData evs) l.toStr with
       | some i => toString i
       | none => "none"
+    | _, _ => "bad-op"
+  | "ltgt" :: l :: r =>
+    match decStr l, parseEvs r with
+    | some l, some evs => toString (Data.labelTarget (Data.groupData evs) (Data.labelOrder evs) l.toStr)
     | _, _ => "bad-op"
   | "reads" :: n :: r =>
     match n.toNat? with
